@@ -99,6 +99,17 @@ def seed_dashed():
     return s
 
 
+def seed_dashed_parent():
+    """A top-level variant with a dashed UID that HAS children (used where only scratch builds are made: the library's own
+    lookup by UID, ci["Atomic-Host-optional"], does not find such children, so live edits cannot address them)."""
+    s = seed_flat()
+    top = vspec("AtomicHost", arches=["i386", "x86_64"], uid="Atomic-Host")
+    top["children"] = [vspec("optional", "optional", ["x86_64"], parent_uid="Atomic-Host"),
+                       vspec("debug", "variant", ["i386", "x86_64"], parent_uid="Atomic-Host")]
+    s["variants"].append(top)
+    return s
+
+
 SEEDS = [("flat", seed_flat), ("forest", seed_forest), ("layered", seed_layered), ("two-level", seed_two_level), ("bare", seed_bare),
          ("dashed", seed_dashed)]
 
